@@ -52,7 +52,39 @@ func bases() []func() *progen.Program {
 		ff(progen.FileParams{Out: "fs", Prod: "filew", ConsMap: true, Late: true, Retain: "pipe", TopOut: true, Mode: "rolling", Size: 2}),
 		ff(progen.FileParams{Out: "s", Proj: "f", Prod: "filew", ProdWrap: true, Vol: "strict", Retain: "stage", Mode: "rolling", Size: 2}),
 		ff(progen.FileParams{Out: "f", Prod: "splitw", ConsWrap: true, Vol: "call", Mode: "rolling", Size: 2}),
+		wildcardBase,
 	}
+}
+
+// wildcardBase: wildcard bindings in a call (* = MKP, next to an explicit
+// binding) and in a return (* = ADD), each with a second call of the same
+// stage in scope.
+func wildcardBase() *progen.Program {
+	p := progen.Dataflow(progen.DataflowParams{Kind: "int", Src: "gen", Size: 2, Cons: "add"})
+	if p == nil {
+		return nil
+	}
+	I := progen.IntT
+	p.Stages = append(p.Stages,
+		&progen.Stage{Name: "MKP", Fn: "GEN", Ins: []progen.Param{{T: I, Name: "n"}}, Outs: []progen.Param{{T: I, Name: "a"}, {T: I, Name: "b"}}},
+		&progen.Stage{Name: "ADDK", Fn: "ADD", Ins: []progen.Param{{T: I, Name: "a"}, {T: I, Name: "b"}, {T: I, Name: "k"}}, Outs: []progen.Param{{T: I, Name: "sum"}}})
+	sub := &progen.Pipeline{Name: "SUB", Ins: []progen.Param{{T: I, Name: "a"}, {T: I, Name: "b"}}, Outs: []progen.Param{{T: I, Name: "sum"}},
+		Calls: []*progen.Call{
+			{Callee: "ADD", Binds: []progen.Bind{{"*", progen.Self("")}}},
+			{Callee: "ADD", Alias: "ADD_ALT", Binds: []progen.Bind{{"a", progen.Self("b")}, {"b", progen.Lit(progen.Int(7))}}},
+			{Callee: "MKP", Binds: []progen.Bind{{"n", progen.Self("a")}}},
+			{Callee: "MKP", Alias: "MKP_ALT", Binds: []progen.Bind{{"n", progen.Self("b")}}},
+			{Callee: "ADDK", Binds: []progen.Bind{{"k", progen.Lit(progen.Int(5))}, {"*", progen.Ref("MKP")}}},
+		},
+		Ret: []progen.Bind{{"*", progen.Ref("ADD")}}}
+	top := p.Pipeline("TOP")
+	top.Calls = append(top.Calls, &progen.Call{Callee: "SUB", Binds: []progen.Bind{{"a", progen.Ref("GEN", "v")}, {"b", progen.Self("n")}}})
+	top.Outs = append(top.Outs, progen.Param{T: I, Name: "wsum"})
+	top.Ret = append(top.Ret, progen.Bind{"wsum", progen.Ref("SUB", "sum")})
+	p.Pipelines = append([]*progen.Pipeline{sub}, p.Pipelines...)
+	p.Desc = "wildcard-bindings"
+	progen.FixUnused(p)
+	return p
 }
 
 // split the printed program into declarations and the top-level call
